@@ -702,12 +702,23 @@ def gen_lifecycle(rng):
     extra = nr           # instance used only for the rejected concurrent attempt
     h = []
     ends = []
+    relay = False
     for r in range(nr):
         for _ in range(rng.choice([0, 1, 3])):
             fl = rng.choice(FLS)
             pid = b.payload(fl, rnd_bystander_script(rng, fl), rnd_cleanup(rng, fl))
             b.main.append(["adopt", r, pid])
-        how = rng.choice(["shutdown", "shutdown", "sigint", "fail", "kbd", "thread_shutdown"])
+        if r > 0 and relay:
+            # the previous run ended while a slow shielded cleanup was in progress: the next run starts
+            # coroutine payloads of the same flavours at once
+            for fl in ("trio", "asyncio"):
+                pid = b.payload(fl, [["beat", 3000, 0.01]], rnd_cleanup(rng, fl))
+                b.main.append(["adopt", r, pid])
+        relay = rng.random() < 0.4
+        if relay:
+            pid = b.payload("trio", [["beat", 3000, 0.01]], {"sync": 1, "shield": rng.choice([0.3, 0.6]), "shield_steps": 4})
+            b.main.append(["adopt", r, pid])
+        how = rng.choice(["shutdown", "shutdown", "sigint", "fail", "kbd", "kbd", "thread_shutdown"])
         ends.append(how)
         h.append(["wait_running", r])
         if r == 0 or rng.random() < 0.4:
@@ -840,7 +851,7 @@ MIX = {
     "C02": [("stop", 0.55), ("fail", 0.27), ("lifecycle", 0.08), ("churn", 0.1)],
     "C03": [("adopt", 0.72), ("stop", 0.07), ("fail", 0.06), ("churn", 0.08), ("storm", 0.07)],
     "C10": [("exec", 0.9), ("overlap", 0.1)],
-    "C11": [("overlap", 0.7), ("exec", 0.3)],
+    "C11": [("overlap", 0.6), ("exec", 0.25), ("lifecycle", 0.15)],
     "C12": [("lifecycle", 0.55), ("stop", 0.2), ("churn", 0.25)],
 }
 N_QUICK = {"C01": 96, "C02": 96, "C03": 80, "C10": 72, "C11": 48, "C12": 56}
@@ -1222,6 +1233,28 @@ def oracle_C11(v):
             inside[(r, fl)] = "%s%d" % (e[1], e[2])
         elif e[0] == "Exit" and (e[1], e[2]) in cor:
             inside[(own.get((e[1], e[2]), 0), cor[(e[1], e[2])])] = None
+    # two loops of one flavour at once: a coroutine payload of a run that has ENDED is still executing (steps,
+    # cleanup) after a coroutine payload of the same flavour of a later run has started
+    ended = {}
+    for (i, _t, _tid, e) in v.ev:
+        if e[0] == "AcceptEnd" and e[3] != ["exclusive"]:
+            ended.setdefault(e[2], i)
+    later_start = {}
+    for (i, _t, _tid, e) in v.find("Start"):
+        key = (e[1], e[2])
+        if e[3] in ("asyncio", "trio") and own.get(key) is not None:
+            for r0, i0 in ended.items():
+                if own[key] != r0 and i > i0:
+                    later_start.setdefault((r0, e[3]), (i, "%s%d" % key))
+    for (i, _t, _tid, e) in v.ev:
+        if e[0] in ("Step", "CleanStep", "CleanupDone", "Enter") and (e[1], e[2]) in cor:
+            key = (e[1], e[2])
+            r0 = own.get(key)
+            ls = later_start.get((r0, cor[key]))
+            if ls and i > ls[0]:
+                out.append("parallel-loops: %s payload %s%d of the ended run of runner %s still executes (%s) after %s of a later "
+                           "run has started" % (cor[key], key[0], key[1], r0, e[0], ls[1]))
+                break
     # coroutine heartbeats go on while thread payloads block
     if v.scn.get("meta", {}).get("family") == "overlap":
         end = [t for (_i, t, _tid, e) in v.ev if e[0] in ("ShutdownCall", "Sigint")]
